@@ -3,6 +3,8 @@
 
 package jet
 
+import "reflect"
+
 // Verification hooks (build tag "verif"). Add-only: nothing here is compiled into normal builds.
 
 // VerifToken is a lexer item as seen by the parser.
@@ -34,4 +36,12 @@ func VerifLex(input, leftDelim, rightDelim, leftComment, rightComment string) (t
 	}
 	panicked = <-done
 	return
+}
+
+// VerifBuildCache runs buildCache on a struct type with an empty cache and returns the
+// field-name -> index-path table resolveIndex would use.
+func VerifBuildCache(typ reflect.Type) map[string][]int {
+	cache := make(map[string][]int)
+	buildCache(typ, cache, nil)
+	return cache
 }
